@@ -121,7 +121,7 @@ pub fn run(tier: Tier) {
     // tokens: E-hist states over contents with their own symbols / keys
     let contents: &'static [&'static str] = &["b1", "b3", "b4"];
     let tp: &'static [&'static str] = &["t0", "t2"];
-    let depth = tier.pick(2, 3);
+    let depth = tier.pick(3, 4);
     let tokens: Mutex<Vec<(Vec<Op>, Biscuit)>> = Mutex::new(vec![]);
     let initial: Vec<Op> = ["b0", "b1", "b3"].iter().map(|c| Op::Build { root: Alg::Ed, next: Alg::Ed, content: c, kid: None }).collect();
     let next = move |_h: &[Op], t: &Tok| {
